@@ -14,9 +14,81 @@ import YtkModel.Generated.Constants
 import YtkProofs.K8s
 import YtkProofs.RebuildB
 import YtkProofs.ValidB
+import YtkProofs.Decisions
 
 namespace Ytk.C17
 open Ytk.K8s
+
+/-! ## decision tables regenerated from the source (extract/tables.go) -/
+section DecisionTables
+open Ytk.TableT
+
+/-- a manifest of the row's kind with one item `b` in the row's binary section and one item `t` in its
+    text section, both holding the text `aGk=` (standard base64 of the bytes `hi`) -/
+def sampleManifest (r : KindRow) : Val :=
+  .obj (AMap.ofList [("kind", strVal r.kind), ("metadata", strVal "m"),
+    (r.binKey, .obj [("b", strVal "aGk=")]), (r.textKey, .obj [("t", strVal "aGk=")])])
+
+/-- the model's `load` / `writeTo` on the sample: the keys are the row's, the binary item is base64-DEcoded
+    and written back ENcoded into the binary section, the text item is taken and written verbatim -/
+def sampleBehaves (r : KindRow) : Bool :=
+  match load (sampleManifest r) with
+  | .ok m =>
+    m.bk == r.binKey && m.tk == r.textKey &&
+    m.bin == [("b", [104, 105])] && m.str == [("t", "aGk=")] &&
+    (match (writeTo m).2 with
+     | .obj doc => sectionOf doc r.binKey == some [("b", strVal "aGk=")] &&
+                   sectionOf doc r.textKey == some [("t", strVal "aGk=")]
+     | _ => false)
+  | _ => false
+
+/-- (i) The kind chain of ManifestFromBytes as regenerated from k8s/manifest.go IS the kind table of the
+    model (same kinds, same binary / text section key for each, everything else an error), `kindKeys`
+    equals the lookup in that table, and the model's `load` / `writeTo`, run on a manifest of every kind of
+    the regenerated table, read and write the sections the table names. -/
+theorem k8s_kinds_table_matches_model :
+    Generated.k8sKinds.map (fun r => (r.kind, r.binKey, r.textKey)) = K8s.kindTable ∧
+    Generated.k8sKindUnsupported = "error" ∧ Generated.k8sKindNonString = "error" ∧
+    Generated.k8sKindMissing = "error" ∧
+    (∀ doc, kindKeys doc =
+      match AMap.get? doc "kind" with
+      | some (.sc s) =>
+        if s.ty = "string" then
+          match K8s.kindTable.lookup s.text with
+          | some p => .ok p
+          | none => .err
+        else .err
+      | _ => .err) ∧
+    (∀ r ∈ Generated.k8sKinds, sampleBehaves r = true) :=
+  ⟨by decide +kernel, by decide +kernel, by decide +kernel, by decide +kernel, kindKeys_eq_table,
+   by decide +kernel⟩
+
+/-- (i) which section goes through base64: the regenerated table of dataHandler.afterLoad / beforeSave
+    (function per key field, use of base64.StdEncoding in it) is the model's -/
+theorem k8s_sections_table_matches_model : Generated.k8sSections = K8s.sectionTable := by decide +kernel
+
+/-- (ii) the rule of the property on the regenerated tables: a Secret keeps binary items under `data` and
+    text items under `stringData`, a ConfigMap binary items under `binaryData` and text items under
+    `data`; the binary section — and only it — is base64-decoded on load and base64-encoded on save;
+    exactly these two kinds are accepted; a missing, non-string or other kind is an error. -/
+theorem k8s_table_rule :
+    Generated.k8sKinds = [⟨"ConfigMap", "binaryData", "data"⟩, ⟨"Secret", "data", "stringData"⟩] ∧
+    (∀ s ∈ Generated.k8sSections, (s.loadBase64 = true ↔ s.field = "bk") ∧ (s.saveBase64 = true ↔ s.field = "bk")) ∧
+    Generated.k8sSections.map (·.field) = ["bk", "tk"] ∧
+    Generated.k8sKindUnsupported = "error" ∧ Generated.k8sKindNonString = "error" ∧
+    Generated.k8sKindMissing = "error" ∧
+    (∀ r ∈ Generated.k8sKinds,
+      r.binKey ∈ [Generated.const? "k8s.keyData", Generated.const? "k8s.keyBinaryData"].filterMap id ∧
+      r.textKey ∈ [Generated.const? "k8s.keyData", Generated.const? "k8s.keyStringData"].filterMap id) := by
+  decide +kernel
+
+/-- (iii) the tables are not empty, the kinds are distinct, and no kind uses one section for both -/
+theorem nonvacuous_k8s_tables :
+    Generated.k8sKinds.length = 2 ∧ (Generated.k8sKinds.map (·.kind)).Nodup ∧
+    (∀ r ∈ Generated.k8sKinds, r.binKey ≠ r.textKey) ∧ Generated.k8sSections.length = 2 := by
+  decide +kernel
+
+end DecisionTables
 
 /-- base64: decoding an encoding gives the bytes back, for every byte string -/
 theorem b64_roundtrip (bs : Bytes) : b64dec (b64enc bs) = some bs := b64dec_b64enc bs
